@@ -33,7 +33,7 @@ var (
 	// local zone is loaded lazily by any use of a time.Time; time.open is not callable from outside package time)
 	reSink = regexp.MustCompile(`^(os\.Getenv|os\.LookupEnv|syscall\.Getenv|time\.LoadLocation|time\.Now|time\.initLocal|time\.loadLocation|time\.open|fmt\.Printf|fmt\.Print|fmt\.Println)$`)
 	// creating / opening / removing files, network, processes, plug-ins
-	reForbidden = regexp.MustCompile(`^(os\.(Open|OpenFile|Create|CreateTemp|Remove|RemoveAll|Rename|Mkdir|MkdirAll|MkdirTemp|ReadFile|WriteFile|ReadDir|Truncate|Chmod|Chown|Link|Symlink|StartProcess|Chdir|DirFS|OpenInRoot|OpenRoot|Pipe)|io/ioutil\.\w+|os/exec\..*|\(\*os/exec\.\w+\)\..*|os/user\..*|plugin\..*|net\..*|\(\*?net\.\w+\)\..*|net/\w+\..*|syscall\.(Open|Openat|openat|Creat|Unlink|Unlinkat|unlinkat|Mkdir|Mkdirat|Rmdir|Rename|Renameat|Link|Symlink|Socket|socket|Connect|connect|Bind|bind|Listen|ForkExec|forkExec|StartProcess|Exec|Mknod|Truncate|Chmod|Chown|Mount|Chroot|Ptrace\w*)|os\.openFileNolog|os\.open|os\.(\(\*ProcAttr\)|startProcess)|\(\*os\.Root\)\..*)$`)
+	reForbidden = regexp.MustCompile(`^(os\.(Open|OpenFile|Create|CreateTemp|Remove|RemoveAll|Rename|Mkdir|MkdirAll|MkdirTemp|ReadFile|WriteFile|ReadDir|Truncate|Chmod|Chown|Link|Symlink|StartProcess|Chdir|DirFS|OpenInRoot|OpenRoot|Pipe)|io/ioutil\.\w+|os/exec\..*|\(\*os/exec\.\w+\)\..*|os/user\..*|plugin\..*|log\.\w+|\(\*log\.Logger\)\.\w+|log/syslog\..*|net\..*|\(\*?net\.\w+\)\..*|net/\w+\..*|syscall\.(Open|Openat|openat|Creat|Unlink|Unlinkat|unlinkat|Mkdir|Mkdirat|Rmdir|Rename|Renameat|Link|Symlink|Socket|socket|Connect|connect|Bind|bind|Listen|ForkExec|forkExec|StartProcess|Exec|Mknod|Truncate|Chmod|Chown|Mount|Chroot|Ptrace\w*)|os\.openFileNolog|os\.open|os\.(\(\*ProcAttr\)|startProcess)|\(\*os\.Root\)\..*)$`)
 )
 
 type cgNode struct {
@@ -121,10 +121,18 @@ func c10Worker() int {
 		`print("x", 1, "\n"); printf("%s %d\n", "y", 2); return 1;`,
 		`return [getenv("/etc/passwd"), getenv("../../etc/shadow"), getenv(""), getenv(1), string(getenv("PATH")) ~= /bin/];`,
 		`x = 1 % 0; return x;`, `panic("boom");`, `return N[0];`, `return nosuch(1);`, `return match("a", "(");`, `return replace("a", "(", "b");`,
-		`function f(a) { return f(a); } return f(1);`, `return 3 +`, `foreach k, v in {"a": 1} { print(k, v); } return Name ~= /x/i;`,
+		`function f(a) { return f(a); } return f(1);`, `return 3 +`, `return [Name, N, P, S, F, C, nothing];`, `x = P; y = S; return type(x) + type(y) + type(F);`, `foreach k, v in {"a": 1} { print(k, v); } return Name ~= /x/i;`,
 		`return sprintf("%v %v %v %v", [1], {"a": 1}, null, 2.5) + string(now()) + getenv("TZ");`,
 	}
-	objs := []interface{}{nil, map[string]interface{}{"N": int64(1700000000), "Name": "x"}, map[int]interface{}{1: 2}, 5, map[string]string{"a": "b"}, struct{ N chan int }{}}
+	objs := []interface{}{nil, map[string]interface{}{"N": int64(1700000000), "Name": "x"}, map[int]interface{}{1: 2}, 5, map[string]string{"a": "b"}, struct{ N chan int }{},
+		// fields of kinds the engine cannot represent, in a struct and in a hand-built map: whatever it has to say about them goes to standard output
+		struct {
+			Name string
+			N    uint32
+			P    *int
+			S    struct{ A int }
+			F    func()
+		}{Name: "odd"}, map[string]interface{}{"Name": "odd", "N": uint32(7), "P": new(int), "S": struct{ A int }{1}, "C": make(chan int)}}
 	for _, tz := range []string{"", "UTC", "America/New_York", "Nowhere/Nothing", "../../etc/passwd"} {
 		if tz == "" {
 			os.Unsetenv("TZ")
@@ -178,10 +186,13 @@ func classifySyscall(name, rest string) string {
 	tz := strings.HasPrefix(path, "/usr/share/zoneinfo") || strings.HasPrefix(path, "/etc/zoneinfo") || strings.HasPrefix(path, "/usr/lib/go") || strings.HasPrefix(path, "/usr/share/lib/zoneinfo") || strings.HasPrefix(path, "/usr/lib/locale/TZ") || path == "/etc/localtime" || strings.Contains(path, "/lib/time/zoneinfo.zip")
 	switch name {
 	case "write", "writev":
-		if strings.HasPrefix(rest, "1,") || strings.HasPrefix(rest, "2,") {
+		if strings.HasPrefix(rest, "1,") {
 			return ""
 		}
-		return "write to a descriptor other than standard output / error"
+		if strings.HasPrefix(rest, "2,") {
+			return "writes to standard error (" + truncate(rest, 60) + ")"
+		}
+		return "write to a descriptor other than standard output"
 	case "open", "openat":
 		if !tz {
 			return "opens " + path
@@ -204,7 +215,7 @@ func classifySyscall(name, rest string) string {
 }
 
 func checkC10(c *Check) {
-	c.rule = "the call graph of a driver using every public entry point (built-ins only) is extracted from the current tree by rapid type analysis (golang.org/x/tools callgraph); MC_Confine receives it as data - functions, callees, roots (public methods of evaluator, VM, environment, lexer, parser, objects, every built-in), permitted sinks (environment, clock, time-zone loading, printing) which are not looked into, forbidden functions (file creation/opening/removal, directories, sockets, processes, plug-ins, os/user) - and TLC explores every call path from every root with the invariant that no forbidden function is entered; the import sets of the library packages are checked; a worker running 15 scripts exercising every built-in (incl. hostile arguments and 5 TZ settings) x 6 objects x 2 modes through Prepare/Execute/Run/Dump is traced with strace -f and every syscall between its markers is classified (writes to fd 1/2, read-only opens of the time-zone database, threads and runtime noise are permitted); distinct = call-graph functions / traced syscalls"
+	c.rule = "the call graph of a driver using every public entry point (built-ins only) is extracted from the current tree by rapid type analysis (golang.org/x/tools callgraph); MC_Confine receives it as data - functions, callees, roots (public methods of evaluator, VM, environment, lexer, parser, objects, every built-in), permitted sinks (environment, clock, time-zone loading, printing) which are not looked into, forbidden functions (file creation/opening/removal, directories, sockets, processes, plug-ins, os/user, the log package) - and TLC explores every call path from every root with the invariant that no forbidden function is entered; the import sets of the library packages are checked; a worker running 17 scripts exercising every built-in (incl. hostile arguments and 5 TZ settings) x 8 objects (incl. structs and maps with fields of kinds the engine cannot represent) x 2 modes through Prepare/Execute/Run/Dump is traced with strace -f and every syscall between its markers is classified (writes to standard output, read-only opens of the time-zone database, threads and runtime noise are permitted); distinct = call-graph functions / traced syscalls"
 	c.assumptions = []string{"soundness of the RTA call graph (calls through interfaces and function values are resolved to every instantiated type / address-taken function); reflection-based calls and linkname are outside it", "the classification of syscalls and of time-zone paths is done by the harness"}
 	for _, b := range forbiddenImports() {
 		c.disagree(&Disagreement{Kind: "forbidden-import", Script: "", Expected: "library packages import no file/network/process packages", Got: b})
